@@ -227,11 +227,13 @@ func (c *mdiConc) block(b *mdiNode) []string {
 		}
 		return out
 	case "fence":
-		out := []string{"```" + b.A}
+		// b.N = indentation of the fence itself (0..3 columns); the content lines are spelled as they are
+		fi := strings.Repeat(" ", b.N)
+		out := []string{fi + "```" + b.A}
 		for _, ln := range b.K {
 			out = append(out, mdiIndent(ln.A)+c.inline(ln.K, false))
 		}
-		return append(out, "```")
+		return append(out, fi+"```")
 	case "icode":
 		var out []string
 		for _, ln := range b.K {
